@@ -473,8 +473,15 @@ func sameDump(a, b []vfsx.Entry) bool {
 	return true
 }
 
-func unzip(fs filesystem.FS, mode, src, dest string) error {
-	var err error
+// errPanicked marks an extraction that panicked (reported as a violation of its own: an archive must not bring the caller down).
+var errPanicked = errors.New("the extraction panicked")
+
+func unzip(fs filesystem.FS, mode, src, dest string) (err error) {
+	defer func() {
+		if pv := recover(); pv != nil {
+			err = fmt.Errorf("%w: %v", errPanicked, pv)
+		}
+	}()
 	switch mode {
 	case limFlat:
 		_, err = fs.UnzipWithContextAndLimits(context.Background(), src, dest, filesystem.DefaultNonRecursiveZipLimits())
@@ -685,6 +692,7 @@ func (s *sandbox) runCase(c *caseSpec) (res caseResult, engineErr error) {
 	}
 
 	res.ErrKind = errKind(err)
+	panicErr := err
 	if err != nil {
 		res.Err = err.Error()
 	}
@@ -710,6 +718,9 @@ func (s *sandbox) runCase(c *caseSpec) (res caseResult, engineErr error) {
 	add := func(sig, detail string) {
 		res.Sigs = append(res.Sigs, sig)
 		res.Details = append(res.Details, detail)
+	}
+	if errors.Is(panicErr, errPanicked) {
+		add(fmt.Sprintf("panic:nest=%d", nest), panicErr.Error())
 	}
 	nameClass := fmt.Sprintf("rawname=%s:name=%s:nest=%d", map[bool]string{true: "outside", false: "inside"}[res.refOut], map[bool]string{true: "utf8", false: "non-utf8"}[nameUTF8], nest)
 
